@@ -118,6 +118,8 @@ impl MT110 {
         // Note: Max 10 repetitions (NVR C1) and currency consistency (NVR C2)
         // are validated in validate_network_rules(), not during parsing
 
+        crate::parser::utils::verify_parser_complete(&parser)?;
+
         Ok(MT110 {
             field_20,
             field_53a,
